@@ -302,6 +302,36 @@ pub fn cases(target: &str, thorough: bool, seed: u64) -> Vec<Case> {
                 prefixes(s, &format!("response/seed{}", i), &mut raw);
                 text_mutants(s, &format!("response/seed{}", i), true, &mut raw);
             }
+            // long runs of complete small units: anything the parser skips, repeats or recurses over once per unit
+            for (name, unit, tail) in [
+                ("100-continue", &b"HTTP/1.1 100 Continue\r\n\r\n"[..], &b"HTTP/1.1 200 OK\r\nContent-Length: 2\r\n\r\nok"[..]),
+                ("102-processing", b"HTTP/1.1 102 Processing\r\n\r\n", b"HTTP/1.1 204 No Content\r\n\r\n"),
+                ("empty-200", b"HTTP/1.1 200 OK\r\n\r\n", b""),
+                ("blank-lines", b"\r\n", b"HTTP/1.1 200 OK\r\n\r\n"),
+            ] {
+                for n in [1usize, 2, 1000, 250_000] {
+                    let mut b = Vec::with_capacity(unit.len() * n + tail.len());
+                    for _ in 0..n {
+                        b.extend_from_slice(unit);
+                    }
+                    b.extend_from_slice(tail);
+                    raw.push((format!("response/run({}x{})", name, n), b));
+                }
+            }
+            for n in [1000usize, 250_000] {
+                let mut b = b"HTTP/1.1 200 OK\r\nTransfer-Encoding: chunked\r\n\r\n".to_vec();
+                for _ in 0..n {
+                    b.extend_from_slice(b"1\r\nx\r\n");
+                }
+                b.extend_from_slice(b"0\r\n\r\n");
+                raw.push((format!("response/run(chunkx{})", n), b));
+                let mut b = b"HTTP/1.1 200 OK\r\n".to_vec();
+                for i in 0..n {
+                    b.extend_from_slice(format!("X-{}: v\r\n", i % 7).as_bytes());
+                }
+                b.extend_from_slice(b"\r\n");
+                raw.push((format!("response/run(headerx{})", n), b));
+            }
         }
         "wsframe" => {
             for b0 in 0..=255u8 {
